@@ -162,12 +162,18 @@ def nontrivial(case):
 
 
 def random_cases(acc, enc, n, seed):
+    # every shard (= process) interleaves all four encoders, so that anything one
+    # encoder leaves behind in the process is seen by the others; *enc* only rotates
+    # the order
+    order = list(ENCODERS[ENCODERS.index(enc):] + ENCODERS[:ENCODERS.index(enc)])
+
     @hseed(seed)
     @settings(max_examples=n, database=None, deadline=None,
               phases=[Phase.generate],
               suppress_health_check=list(HealthCheck))
-    @given(cases(enc))
+    @given(st.sampled_from(order).flatmap(cases))
     def body(case):
+        enc = case["enc"]
         if acc.expired():
             acc.notes["budget_exhausted"] = 1
             return
@@ -191,12 +197,36 @@ def random_cases(acc, enc, n, seed):
     body()
 
 
+def temporal_grid(acc, run=None, prop="C01"):
+    """Every zone value x a few clock/date boundary values x every encoder, each as
+    a one-statement module and inside a sequence (always run, deterministic)."""
+    run = run or run_case
+    times_ = [(0, 0, 0, 0), (10, 54, 0, 129000), (23, 59, 59, 999000), (1, 2, 3, 4000),
+              (12, 0, 0, 1)]
+    dates_ = [(2001, 1, 1), (999, 12, 31), (9999, 12, 31)]
+    for enc in ENCODERS:
+        for tz in gv.TZ_MINUTES:
+            specs = []
+            for (h, m, s_, us) in times_:
+                specs.append({"time": [h, m, s_, us, tz]})
+                specs.append({"dt": list(dates_[(h + m) % 3]) + [h, m, s_, us, tz]})
+            for v in specs:
+                for spec in ([["T", v]], [["S", {"seq": [v, 1]}]]):
+                    case = {"enc": enc, "cfg": {}, "spec": spec}
+                    r = run(case)
+                    acc.event(f"grid:{enc}:{r[0]}")
+                    acc.case(key="grid" + repr(case), nontrivial=(r[0] == "ok"))
+                    if r[0] == "fail":
+                        acc.fail(r[1], case, r[2])
+
+
 def shards(tier, seed):
     n = 350 if tier == "quick" else 10000
     out = []
     for j in range(16):
         enc = ENCODERS[j % 4]
         out.append(("random_cases", dict(enc=enc, n=n, seed=seed * 1000 + j)))
+    out.append(("temporal_grid", {}))
     return out
 
 
